@@ -210,3 +210,41 @@ Lemma refuted_decl_name_clash :
   env schemaK2 docK2 = true /\ excl_member_clash schemaK2 docK2 = false /\ excl_decl_clash schemaK2 docK2 = true /\
   generated_and (generate no_quirks schemaK2 (doc_valid schemaK2 docK2) docK2) (fun p => negb (wf_program p)) = true.
 Proof. repeat split; vm_compute; reflexivity. Qed.
+
+(** the same selection sets with the generator of the current tree (fix "two members of a selection
+    set the same struct field"): the clashing members get distinct fields (User, User_), the
+    output is well formed and decodes *)
+Definition respK1 : rv :=
+  RObj (bs "Query") [(bs "node", RObj (bs "User") [(bs "__typename", S_ "User"); (bs "user", S_ "u1"); (bs "name", S_ "ann")])].
+Definition docK3 : document :=
+  mkdoc [q "K" [F "node" [F "__typename" []; FA "typename__" "id" []; FA "User" "id" []; ON "User" [F "name" []]]]] [].
+Definition respK3 : rv :=
+  RObj (bs "Query") [(bs "node", RObj (bs "User") [(bs "__typename", S_ "User"); (bs "typename__", S_ "u1"); (bs "User", S_ "u1"); (bs "name", S_ "ann")])].
+
+(** leaves of the decoded value and the selected leaves, fragment labels compared up to the
+    underscores appended to a clashing field name *)
+Fixpoint strip_us_rev (r : bytes) : bytes :=
+  match r with c :: r' => if (c =? 95)%N then strip_us_rev r' else r | [] => [] end.
+Definition norm_step (s : pstep) : pstep := match s with PFrag f => PFrag (rev (strip_us_rev (rev f))) | _ => s end.
+Definition norm_pl (pl : path * leaf) : path * leaf := (map norm_step (fst pl), snd pl).
+Definition leaves_agree_norm (p : program) (S : schema) (o : opdef) (opname : string) (w : rv) : bool :=
+  match decode_op p 200 (bs opname) (json_of w) with
+  | DOk v => forallb (fun pl => existsb (pl_eqb (norm_pl pl)) (map norm_pl (expected S o w))) (leaves v) &&
+             forallb (fun pl => existsb (pl_eqb (norm_pl pl)) (map norm_pl (leaves v))) (expected S o w)
+  | _ => false
+  end.
+
+Lemma fixed_member_name_clash :
+  env ex_schema docK1 = true /\ excl_member_clash ex_schema docK1 = true /\
+  generated_and (generate_s ex_schema (doc_valid ex_schema docK1) docK1)
+    (fun p => wf_program p && leaves_agree_norm p ex_schema (hd opM (d_ops docK1)) "K" respK1) = true /\
+  env ex_schema docK3 = true /\ excl_member_clash ex_schema docK3 = true /\
+  generated_and (generate_s ex_schema (doc_valid ex_schema docK3) docK3)
+    (fun p => wf_program p && leaves_agree_norm p ex_schema (hd opM (d_ops docK3)) "K" respK3) = true.
+Proof. repeat split; vm_compute; reflexivity. Qed.
+
+(** decl-name-clash is not repaired: the generator of the current tree still declares EA twice *)
+Lemma refuted_decl_name_clash_real :
+  env schemaK2 docK2 = true /\ excl_member_clash schemaK2 docK2 = false /\ decl_safe schemaK2 docK2 = false /\
+  generated_and (generate_s schemaK2 (doc_valid schemaK2 docK2) docK2) (fun p => negb (wf_program p)) = true.
+Proof. repeat split; vm_compute; reflexivity. Qed.
